@@ -16,6 +16,18 @@ CHECKS = {
     text="For hundreds (thorough: thousands) of generated schema sets every expected struct (named complex type, simple type, anonymous-typed global element) must exist exactly once in the single module of its namespace with exactly the expected public members: presence, attribute flag, T / Option<T> / Vec<T> from own and enclosing occurrence and choice membership, builtin mapping, order, and nothing undeclared. rustc then type-checks a driver that builds each struct from exactly typed lets, which also pins the module of every struct-typed member.",
     note="Trusted: the reference mapping in expect.rs (DESIGN.md 3.2), syn, rustc. Field names are asserted only for canonical names (words of >= 2 letters in six case styles). Gate: prelude-colliding type names (F17).",
     design="DESIGN.md section 4 C02"),
+ "C03": dict(
+    category="exploration",
+    technique="generative testing with an independent infoset oracle: values generated from the schema model are compiled into a driver as Rust expressions, serialized by yaserde inside the driver, parsed by roxmltree and compared with the infoset the model prescribes",
+    text="For generated schema sets, up to five root types each receive three generated values (optionals present/absent, repeats, numeric extremes of every builtin, XML-special and multi-byte text, facet-conformant restricted values, one branch per choice). The serialized document must be namespace-well-formed (roxmltree parses it), every element must carry the local name and the namespace of its declaring schema, attributes must be unqualified and named as declared, children must follow declaration order with one element per item and nothing for absent optionals, and leaf text must equal the value in the value space of its builtin.",
+    note="Trusted: roxmltree, the expected-infoset construction (values.rs). Excluded as yaserde 0.12 behaviour shown on hand-written structs: tabs/newlines in attribute values, XML-special characters in attributes of struct (simple-type) type (escaped twice), empty text nodes. Member names are canonical.",
+    design="DESIGN.md section 4 C03"),
+ "C04": dict(
+    category="exploration",
+    technique="round-trip property testing: instance documents rendered from generated values in four surface styles are deserialized inside a compiled driver; oracle = Debug equality with the value built from the literal, infoset equality of the re-serialization, byte fixpoint of ser-de-ser",
+    text="Every generated value is rendered as four instance documents (fresh prefixes on the root; default namespace for the root with prefixes declared at first use; default namespace re-declared on every element; pretty-printed with single quotes). yaserde::de::from_str must succeed on each, yield a value whose Debug text equals that of the value built from the Rust literal, re-serialize to a document infoset-equal to the instance, and ser(de(ser(v))) must equal ser(v) byte for byte.",
+    note="Trusted: roxmltree, the instance renderer and value generator (values.rs). Gate: a derived simple type used across namespaces (open finding F45, replayed separately). Same yaserde exclusions as C03.",
+    design="DESIGN.md section 4 C04"),
  "C06": dict(
     category="exploration",
     technique="property-based differential testing: exhaustive small-bound sweep + proptest-generated triples against an executable XSD-facet specification (i128)",
